@@ -256,6 +256,100 @@ fn check_cfg(ctx: &Ctx, cfg: &Cfg, k_workers: usize, cont_len: usize, hist_depth
     out
 }
 
+/// (D) clone fidelity over LONG continuations: a clone taken after every
+/// history (short exhaustive ones and every prefix of two default streams up
+/// to 2n+2) must follow, for every continuation of n+2 inputs, a fresh instance
+/// replaying the same operations - while the original is fed a different
+/// continuation in between (alternating steps).
+fn long_continuations(ctx: &Ctx, cfg: &Cfg, hist_depth: usize) -> JobOut {
+    let mut out = JobOut::default();
+    let alpha = generic_alphabet(cfg.kind, false);
+    let n = cfg.max_period();
+    let clen = n + 2;
+    let mut hists: Vec<Vec<Op>> = vec![vec![]];
+    for_each_seq(alpha.len(), None, hist_depth, |seq| {
+        hists.push(seq.iter().map(|&a| alpha[a as usize]).collect());
+        true
+    });
+    for l in hist_depth + 1..=2 * n + 2 {
+        hists.push((0..l).map(|i| alpha[(i * 3 + 1) % alpha.len()]).collect());
+        hists.push((0..l).map(|i| alpha[(i / 2) % alpha.len()]).collect());
+    }
+    let calpha = &alpha[..3];
+    let mut cont: Vec<Op> = vec![];
+    for h in &hists {
+        if ctx.out_of_time() {
+            out.stats.capped.push(format!("time cap in long continuations of {}", cfg.descr()));
+            break;
+        }
+        out.stats.states += 1;
+        let ok = for_each_seq_exact(calpha.len(), clen, |seq| {
+            cont.clear();
+            cont.extend(seq.iter().map(|&a| calpha[a as usize]));
+            let r = std::panic::catch_unwind(std::panic::AssertUnwindSafe(|| {
+                let mut o = make(cfg);
+                for op in h {
+                    o.apply(op);
+                }
+                let mut c = o.dup();
+                // expected: fresh instances replaying each object's own operations
+                let mut fo = make(cfg);
+                let mut fc = make(cfg);
+                for op in h {
+                    fo.apply(op);
+                    fc.apply(op);
+                }
+                for (i, op) in cont.iter().enumerate() {
+                    // the original gets a different input first
+                    let oop = alpha[(i + 3) % alpha.len()];
+                    let go = o.apply(&oop);
+                    let eo = fo.apply(&oop);
+                    if !go.bits_eq(&eo) {
+                        return Some((0usize, i, go, eo));
+                    }
+                    let gc = c.apply(op);
+                    let ec = fc.apply(op);
+                    if !gc.bits_eq(&ec) {
+                        return Some((1usize, i, gc, ec));
+                    }
+                }
+                None
+            }));
+            out.stats.traces += 1;
+            out.stats.transitions += (2 * h.len() + 4 * clen) as u64;
+            out.stats.evaluations += 2 * clen as u64;
+            match r {
+                Ok(None) => true,
+                Ok(Some((who, i, got, want))) => {
+                    let mut ops = h.clone();
+                    if who == 1 {
+                        ops.extend_from_slice(&cont[..=i]);
+                    } else {
+                        ops.extend((0..=i).map(|j| alpha[(j + 3) % alpha.len()]));
+                    }
+                    out.fail(
+                        Violation::new(PROP, cfg, &ops, if who == 1 { "clone-diverges" } else { "not-independent" })
+                            .obs(out2s(&got))
+                            .exp(out2s(&want))
+                            .det(format!("{} output {} of its continuation differs from a fresh instance replaying the same {} + {} operations; clone taken after {} ops; the other object was fed different inputs in between", ["original", "clone"][who], i + 1, h.len(), i + 1, h.len()))
+                            .with("schedule", format!("clone@main after {} ops, then alternate original/clone", h.len())),
+                    );
+                    false
+                }
+                Err(_) => {
+                    out.fail(Violation::new(PROP, cfg, h, "panic").obs("panic".into()).exp("outputs".into()));
+                    false
+                }
+            }
+        });
+        if !ok {
+            break;
+        }
+    }
+    out.stats.add("clone_points_with_long_continuations", hists.len() as u64);
+    out
+}
+
 /// Supplementary, SAMPLING: free-running threads each owning distinct instances.
 fn free_running(ctx: &Ctx, rounds: usize, out: &mut JobOut) {
     let threads = 16usize;
@@ -328,7 +422,8 @@ pub fn ownership_audit() -> Vec<String> {
             }
         }
     }
-    walk(std::path::Path::new("/repo/src"), &mut |p| {
+    let repo = std::env::var("VERIF_REPO_DIR").unwrap_or_else(|_| "/repo".to_string());
+    walk(&std::path::Path::new(&repo).join("src"), &mut |p| {
         if let Ok(text) = std::fs::read_to_string(p) {
             let body = match text.find("#[cfg(test)]") {
                 Some(i) => &text[..i],
@@ -364,6 +459,16 @@ pub fn run(ctx: &Ctx) -> CheckResult {
     // each job owns a private worker pool, so jobs run in parallel without sharing threads
     let outs = par_run(ctx, &cfgs, |_, cfg| check_cfg(ctx, cfg, k_workers, cont_len, hist_depth, thread_hist_depth));
     res.absorb(merge_jobs(outs));
+    // (D) long continuations after the clone
+    if !res.out.failed() {
+        let mut c2 = vec![];
+        for k in ALL_KINDS {
+            c2.extend(generic_cfgs(k, if th { &[1, 2, 3, 4, 5, 6] } else { &[1, 2, 3, 4, 5] }, &[2, 4]));
+        }
+        c2.sort_by_key(|c| std::cmp::Reverse(c.max_period()));
+        let outs = par_run(ctx, &c2, |_, cfg| long_continuations(ctx, cfg, if th { 3 } else { 2 }));
+        res.absorb(merge_jobs(outs));
+    }
     // DataItem clone
     if !res.out.failed() {
         let it = DataItem::builder().open(2.0).high(3.0).low(1.0).close(2.5).volume(7.0).build().unwrap();
@@ -384,7 +489,7 @@ pub fn run(ctx: &Ctx) -> CheckResult {
     res.require(res.out.stats.counters.get("schedules_threads").copied().unwrap_or(0) > 1 || res.out.failed(), "no multi-thread schedule was executed");
     res.rule = "case = (configuration, history h at which the clone is taken, schedule): objects {original after h, its clone, unrelated instance with other parameters} each get a continuation; a schedule = interleaving of their operations + assignment of every step to a real OS worker thread; oracle = every output bit-identical to a fresh instance replaying that object's own operations on the main thread; non-trivial = schedule executed on >= 1 worker thread other than main".into();
     res.bounds = format!(
-        "all 22 indicators, periods {{1,3}}; every history in seq(4 symbols, {hist_depth}) as clone point; (A) all {} merges of 3x{cont_len} ops on one thread; (B) histories up to length {thread_hist_depth}: 3 canonical merges x all worker assignments up to renaming on {k_workers} real threads x clone taken on worker 0/1; (C) all 16x16 continuation pairs for original/clone under 3 sequential schedules; plus {rounds} free-running 16-thread rounds (SAMPLING, not part of the exhaustive claim)",
+        "all 22 indicators, periods {{1,3}}; every history in seq(4 symbols, {hist_depth}) as clone point; (A) all {} merges of 3x{cont_len} ops on one thread; (B) histories up to length {thread_hist_depth}: 3 canonical merges x all worker assignments up to renaming on {k_workers} real threads x clone taken on worker 0/1; (C) all 16x16 continuation pairs for original/clone under 3 sequential schedules; (D) periods 1..5(6): clone after every history up to depth 2(3) and after every prefix up to 2n+2 of two default streams, every continuation of n+2 inputs over 3 symbols for the clone while the original is fed different inputs in between; plus {rounds} free-running 16-thread rounds (SAMPLING, not part of the exhaustive claim)",
         merges(&vec![cont_len; 3]).len()
     );
     let mut assumptions = vec![
